@@ -12,7 +12,8 @@ ids, the basis tree (last commit) and a counter for fresh ids.
 `commit`, `revert(backups=False)` and re-opening, for the dirstate (`bzr`)
 and the git index (`git`) working trees.  In the git flavour directories are
 versioned exactly when they contain a versioned file (`pruneGit`), and adding
-below an unversioned directory versions the directories on the way.
+below an unversioned directory versions the directories on the way.  Every
+operation that raises leaves the state unchanged.
 -/
 namespace BreezyVerif.C09
 open BreezyVerif.C10
@@ -195,18 +196,8 @@ def stepOk (fl : Flavour) (s : State) (op : Op) : Option State :=
                                    ver := s.ver.filter (fun j => !sub.contains j),
                                    ctr := s.ctr + gone.length })
   | .rename a b =>
-    -- git, "perhaps it's already moved?": the source is not on disk, the target is and
-    -- is unversioned (and was not versioned in the basis): the target becomes versioned
-    -- *whether or not the source was ever versioned* (the code that exists)
-    if fl == .git && (idAt s.disk a).isNone && (idAt s.disk b).isSome
-        && !((idAt s.disk b).map (isVer s) == some true) then
-      match idAt s.disk b with
-      | some j =>
-        if (idAt s.basis b).isSome then none
-        else if isDir s.disk j then some s
-        else some (finish fl { s with ver := unionNew s.ver (j :: ancestors s.disk s.disk.length j) })
-      | none => none
-    else
+    -- (git's "perhaps it's already moved?" mode needs a versioned source that is gone from
+    -- disk: outside the modelled envelope, so a missing source is an error in both flavours)
     match idAt s.disk a, b.getLast?, idAt s.disk b.dropLast with
     | some i, some name, some d =>
       if (isVer s i || (fl == .git && isDir s.disk i)) && (get s.disk i).bind (·.parent) != none && isDir s.disk d
@@ -224,22 +215,11 @@ def stepOk (fl : Flavour) (s : State) (op : Op) : Option State :=
   | .revert => some (finish fl (revert fl s))
   | .reopen => some s
 
-/-- what a *failed* operation leaves behind.  The code that exists
-(`MutableTree.mkdir`: `os.mkdir`, then `add`): below an unversioned directory
-the directory is created on disk, then `add` raises.  Every other failing
-operation leaves the state alone. -/
-def afterError (fl : Flavour) (s : State) (op : Op) : State :=
-  match op with
-  | .mkdir p =>
-    match fl, place s p .dir false false with
-    | .bzr, some s' => s'
-    | _, _ => s
-  | _ => s
-
+/-- a failing operation raises and leaves the state alone -/
 def step (fl : Flavour) (s : State) (op : Op) : State × Out :=
   match stepOk fl s op with
   | some s' => (s', .ok)
-  | none => (afterError fl s op, .err)
+  | none => (s, .err)
 
 def run (fl : Flavour) : State → List Op → State
   | s, [] => s
